@@ -266,7 +266,8 @@ func (*DefaultKeyFileClassifier) ClassifyExportedKey(path string) *ExportedKey {
 
 	// Poison key is in ".poison_key" subdirectory, we can't look at filename alone.
 	if strings.HasSuffix(path, "/"+getSymmetricKeyName(PoisonKeyFilename)) {
-		keyContext := keystore.NewKeyContext(keystore.PurposePoisonRecordSymmetricKey, []byte(PoisonKeyFilename))
+		// the keystore encrypts this key with its whole file name as context
+		keyContext := keystore.NewKeyContext(keystore.PurposePoisonRecordSymmetricKey, []byte(getSymmetricKeyName(PoisonKeyFilename)))
 		return NewExportedSymmetricKey(path, keyContext)
 	}
 
